@@ -67,6 +67,12 @@ import faults as _FL
 for _pid in ("C09", "C13", "C16"):
     PROPS[_pid]["extra"] = _FL.chain(PROPS[_pid]["extra"], _FL.extra(_pid)) if PROPS[_pid].get("extra") else _FL.extra(_pid)
 
+# harness validity (validity.py): real kills vs simulated crashes (C10), real loopback WebSockets vs direct calls (C17 C02)
+import validity as _VAL
+PROPS["C10"]["extra"] = _FL.chain(PROPS["C10"]["extra"], _VAL.extra_kill)
+PROPS["C17"]["extra"] = _FL.chain(PROPS["C17"]["extra"], _VAL.extra_loopback)
+PROPS["C02"]["extra"] = _FL.chain(PROPS["C02"]["extra"], _VAL.extra_loopback) if PROPS["C02"].get("extra") else _VAL.extra_loopback
+
 STALE_PROPS = ("C02", "C11", "C12", "C13")
 
 KF_MANIFEST = {"1": "IntegrityError", "2": "crowded", "3": "ValueError"}
